@@ -589,6 +589,9 @@ def _call(make_call, ctx, sig, case):
     """run the producer once on fresh arguments -> (named_args, result) or None if inapplicable"""
     named, thunk = make_call()
     before = [(n, fields(v)) for n, v in named]
+    # producers that draw random numbers (bootstrap, random folds, simulation) get the same draws
+    # on every call of the same case: a replay sees exactly the execution that was reported
+    np.random.seed((int(ctx.seed) * 1000003 + sum(map(ord, sig))) % (1 << 32))
     with np.errstate(all='ignore'):
         res = thunk()
     after = [(n, fields(v)) for n, v in named]
